@@ -2900,6 +2900,8 @@ sexp sexp_ratio_normalize (sexp ctx, sexp rat, sexp in) {
   sexp tmp;
   sexp_gc_var2(num, den);
   num = sexp_ratio_numerator(rat), den = sexp_ratio_denominator(rat);
+  if (!(sexp_fixnump(num) || sexp_bignump(num)) || !(sexp_fixnump(den) || sexp_bignump(den)))
+    return sexp_read_error(ctx, "invalid rational syntax", rat, in);
   if (den == SEXP_ZERO)
     return sexp_read_error(ctx, "zero denominator in ratio", rat, in);
   else if (num == SEXP_ZERO)
